@@ -241,6 +241,22 @@ def step (p : Prog) (st : St) (op : Sexp) : St × Sexp :=
       | none => (st, showErr .missing)
     | none, _ => (st, noTrace)
     | _, _ => (st, badOp)
+  | .list [.atom "idx", seed, k, .atom "upd", c] =>
+    match st.cur, seed.nat?, k.nat?, cmap c with
+    | some t, some s, some k, some c =>
+      match editIndex ds .upd p [s] t k c .none with
+      | .ok r => ({ cur := some r.tr, lastBwd := some r.bwd }, showRes r)
+      | .error e => (st, showErr e)
+    | none, _, _, _ => (st, noTrace)
+    | _, _, _, _ => (st, badOp)
+  | .list [.atom "idx", seed, k, .atom "regen", sel] =>
+    match st.cur, seed.nat?, k.nat?, SelD.term sel with
+    | some t, some s, some k, some sel =>
+      match editIndex ds .regen p [s] t k [] sel with
+      | .ok r => ({ cur := some r.tr, lastBwd := some r.bwd }, showRes r)
+      | .error e => (st, showErr e)
+    | none, _, _, _ => (st, noTrace)
+    | _, _, _, _ => (st, badOp)
   | .list [.atom "proj", sel] =>
     match st.cur, SelD.term sel with
     | some t, some sel =>
